@@ -53,8 +53,8 @@ RULE = (
     "to_portable/from_portable directly or through JSON), assign drawn parameter values (scalar or per-variant list, "
     "also shorter/longer than the number of variants), assign std values, solve(), steady(), alter_num_variants(1..3) "
     "on ANY pool member; after every step every variant of every object is compared (rtol 1e-9) with a fresh "
-    "single-variant model replaying that variant's own lineage: parameters, stds, steady levels and changes, all "
-    "first-order solution matrices T, P, K, Z, H, D, a fixed first-order simulation with initial conditions, "
+    "single-variant model replaying that variant's own lineage: parameters, stds, steady levels and changes, "
+    "first-order solution matrices T, P, K, Z, H, D, check_steady discrepancies, a fixed first-order simulation with initial conditions, "
     "unanticipated, anticipated and measurement shocks, and the Kalman-filter likelihood of fixed data (simulation and "
     "filter for the object touched by the step and for all objects after the last step; variants read through "
     "get_variant views or from the whole object, drawn).  Non-trivial iff some derived object and its origin both "
@@ -104,6 +104,22 @@ SOL_NAMES = ("T", "P", "K", "Z", "H", "D")       # the triangular form (Ta, Ua, 
 def _ir():
     import irispie as ir
     return ir
+
+
+def _silent(check):
+    """irispie resets the warning filters in places; keep numerical warnings off stderr while a case runs."""
+    import functools
+    import warnings
+
+    @functools.wraps(check)
+    def wrapper(case):
+        saved = warnings.showwarning
+        warnings.showwarning = lambda *a, **k: None
+        try:
+            return check(case)
+        finally:
+            warnings.showwarning = saved
+    return wrapper
 
 
 def _quiet(fn, *args, **kwargs):
@@ -203,7 +219,7 @@ def _sim_case(draw):
 
     def random_op(target=None):
         kind = draw(st.sampled_from(["derive", "derive", "assign", "assign", "assign", "assign", "assign_std",
-                                     "solve", "solve", "solve", "solve", "steady", "steady", "alter"]))
+                                     "solve", "solve", "solve", "solve", "steady", "steady", "alter", "alter"]))
         t = draw(obj) if target is None else target
         if kind == "derive":
             return [[draw(st.sampled_from(DERIVE_KINDS)), t]]
@@ -218,22 +234,28 @@ def _sim_case(draw):
             which = draw(st.lists(st.integers(0, nstd - 1), min_size=1, max_size=min(nstd, 2), unique=True))
             return [["assign_std", t, [[s, draw(_maybe_list(_STD))] for s in sorted(which)]]]
         if kind == "alter":
-            k = draw(st.integers(1, MAX_VARIANTS))
+            k = draw(st.sampled_from([1, 1, 2, 2, 3]))
             out = [["alter", t, k]]
-            if k > 1 and draw(st.booleans()):
+            if k > 1 and draw(st.sampled_from([True, True, True, False])):
                 out.append(assign_op(t, k))
             return out
         return [[kind, t]]
 
     ops = []
-    for _ in range(draw(st.integers(0, 2))):
+    if draw(st.sampled_from([False, False, True])):
+        # the original is widened before anything is derived from it
+        k = draw(st.sampled_from([2, 3]))
+        ops += [["alter", 0, k], assign_op(0, k)]
+        if draw(st.booleans()):
+            ops.append(["solve", 0])
+    for _ in range(draw(st.sampled_from([0, 0, 1, 2]))):
         ops += random_op()
     # one guaranteed derivation, then (usually) the pattern behind the non-trivial rule
     pool = 1 + sum(1 for o in ops if o[0] in DERIVE_KINDS)
     src = draw(st.integers(0, pool - 1))
     ops.append([draw(st.sampled_from(DERIVE_KINDS)), src])
     new = pool
-    if draw(st.integers(0, 3)) > 0:
+    if draw(st.sampled_from([True, True, True, False])):
         a = [assign_op(new), ["solve", new]]
         b = [assign_op(src), ["solve", src]]
         extra = random_op() if draw(st.booleans()) else []
@@ -244,12 +266,12 @@ def _sim_case(draw):
             ops += b + extra + a
         else:
             ops += [a[0], b[0]] + extra + [b[1], a[1]]
-    for _ in range(draw(st.integers(0, 4))):
+    for _ in range(draw(st.sampled_from([0, 1, 2, 3, 4]))):
         ops += random_op()
     return {
         "spec": spec,
         "flat": draw(st.booleans()),
-        "deterministic": draw(st.integers(0, 7)) == 0,
+        "deterministic": draw(st.sampled_from([False] * 7 + [True])),
         "view_reads": draw(st.booleans()),
         "ops": ops[:MAX_STEPS],
     }
@@ -529,6 +551,17 @@ def _observe_whole(ctx, m, nv, want_solution, deep):
                 s = sols[k]
                 out[k]["vectors"] = vec
                 out[k]["solution"] = None if s is None else {nm: getattr(s, nm) for nm in SOL_NAMES}
+    if deep:
+        # residuals of the dynamic equations at the steady state, evaluated by the compiled equation functions
+        try:
+            _, info = m.check_steady(when_fails="silent", return_info=True)
+        except Exception as exc:  # noqa: BLE001 - e.g. no steady state yet; the reference must behave the same
+            for k in range(nv):
+                out[k]["check_steady_raises"] = type(exc).__name__
+        else:
+            info = info if isinstance(info, list) else [info]
+            for k in range(nv):
+                out[k]["check_steady"] = info[k]["discrepancies"]
     if deep and all(want_solution):
         sim = m.simulate(ctx.db_sim, ctx.span, method="first_order")
         for k in range(nv):
@@ -600,6 +633,12 @@ def _compare_variant(col, ctx, tag, got, ref, var, where, nv_is_one=True):
                     dd = _differs(gs[nm], rs[nm])
                     if not col.check(dd is None, f"{tag}:solution", lambda: f"{where}: solution matrix {nm}: {dd}"):
                         break
+    if nv_is_one and ("check_steady_raises" in got or "check_steady_raises" in ref):
+        col.check(got.get("check_steady_raises") == ref.get("check_steady_raises"), f"{tag}:check_steady_raises_differently",
+                  lambda: f"{where}: check_steady raised {got.get('check_steady_raises')!r}, on the reference {ref.get('check_steady_raises')!r}")
+    if "check_steady" in got and "check_steady" in ref:
+        dd = _differs(got["check_steady"], ref["check_steady"], atol=1e-10)
+        col.check(dd is None, f"{tag}:check_steady", lambda: f"{where}: dynamic-equation discrepancies at the steady state: {dd}")
     if "simulate" in got and "simulate" in ref:
         for nm in ctx.vars:
             dd = _differs(got["simulate"][nm], ref["simulate"][nm])
@@ -689,6 +728,7 @@ def _derive(col, ctx, kind, src, where):
     return new
 
 
+@_silent
 def _check_sim(case):
     spec = case["spec"]
     if lm.classify(spec)[0] != "determinate" or lm.steady(spec)[0] is None:
@@ -891,6 +931,7 @@ def _norm(x):
     return x
 
 
+@_silent
 def _check_port(case):
     ir = _ir()
     col = Collector()
@@ -1091,6 +1132,7 @@ def _seq_derive(col, kind, src, where):
         return None
 
 
+@_silent
 def _check_seq(case):
     ir = _ir()
     col = Collector()
@@ -1273,6 +1315,7 @@ def _var_observe(v, nv, sim_db, sim_span, ynames):
     return out
 
 
+@_silent
 def _check_var(case):
     ir = _ir()
     col = Collector()
@@ -1388,8 +1431,8 @@ FINDING_MATCHERS = {
 }
 
 SUBCHECKS = [
-    HypSub("simultaneous_ops", _sim_case, _check_sim, _classify_sim, budget={"quick": 400, "thorough": 8000}),
-    HypSub("portable", _port_case, _check_port, _classify_port, budget={"quick": 640, "thorough": 12000}),
-    HypSub("sequential_ops", _seq_case, _check_seq, _classify_seq, budget={"quick": 320, "thorough": 6000}),
-    HypSub("redvar_ops", _var_case, _check_var, _classify_var, budget={"quick": 240, "thorough": 4000}),
+    HypSub("simultaneous_ops", _sim_case, _check_sim, _classify_sim, budget={"quick": 960, "thorough": 16000}),
+    HypSub("portable", _port_case, _check_port, _classify_port, budget={"quick": 800, "thorough": 16000}),
+    HypSub("sequential_ops", _seq_case, _check_seq, _classify_seq, budget={"quick": 400, "thorough": 8000}),
+    HypSub("redvar_ops", _var_case, _check_var, _classify_var, budget={"quick": 320, "thorough": 6000}),
 ]
